@@ -1059,6 +1059,8 @@ impl ServerSim {
             micro_http::Version::Http10 => 0,
             micro_http::Version::Http11 => 1,
         };
+        // the application is free to answer in another HTTP version than the request's
+        let version = if pad % 5 == 4 { 1 - version } else { version };
         let (resp, bytes) = app_response(version, &tag, code, pad);
         let mut slot = Some(resp);
         let sresp = req.process(|_r| slot.take().unwrap());
@@ -1098,6 +1100,7 @@ impl ServerSim {
                 micro_http::Version::Http10 => 0,
                 micro_http::Version::Http11 => 1,
             };
+            let version = if pad % 5 == 4 { 1 - version } else { version };
             let (resp, bytes) = app_response(version, &tag, code, pad);
             let mut slot = Some(resp);
             batch.push(req.process(|_r| slot.take().unwrap()));
